@@ -21,7 +21,6 @@ EXPECT = {
  ('c1b1f2e', 1): [('LAYOUT', 'C10', 'LAYOUT/encoding.NewUint64MapBuilder#1')],
  ('8abd2f7', 2): [('CLIENT-STEPPED-LOOP', 'C23', 'CLIENT-STEPPED-LOOP/api/functions.samplePoints#1')],
  ('4284048', 1): [('MUTATOR-ERR', 'C26', 'MUTATOR-ERR/ingest.(ingestedYAML).Apply#5')],
- ('f8e960c', 1): [('DIVISOR-POSITIVE', 'C23', 'DIVISOR-POSITIVE/api/functions.divide#1')],
  ('6ba81dd', 1): [('GEOJSON-TYPES', 'C32', 'GEOJSON-TYPES/geojson#MultiLineString')],
  ('b559a96', 1): [('ESCAPE-LEX', 'C20', 'ESCAPE-LEX/api.EscapeTagValue#8')],
  ('3e4a8a0', 1): [('DECODE-ADVANCES', 'C08', 'DECODE-ADVANCES/ingest/compact.(*Iterator).Advance#1')],
@@ -101,7 +100,8 @@ for (commit, n), exp in sorted(EXPECT.items(), key=lambda kv: str(kv[0])):
 # commits whose hunks do not type-check one at a time are reverted whole, as a patch
 for commit, rule, prop, key in [('3b1d4ff', 'PRODUCER', 'C28', 'PRODUCER/osm.ReadPBFWithOptions#1'), ('b4ed2c5', 'PRODUCER', 'C28', 'PRODUCER/ingest.(MemoryFeatureSource).Read#1'),
         ('a17927f', 'APPLIED-UNWRAP', 'C26', 'APPLIED-UNWRAP/ui.(*EvaluateHandler).ServeHTTP#2'), ('9fa9787', 'REPEATABLE-APPLY', 'C26', 'REPEATABLE-APPLY/ingest.(ingestedYAML).Apply'),
-        ('c0bc6c7', 'SIGNED-DETOUR', 'C10', 'SIGNED-DETOUR/b6.FeatureIDFromUKONSCode#parse1')]:
+        ('c0bc6c7', 'SIGNED-DETOUR', 'C10', 'SIGNED-DETOUR/b6.FeatureIDFromUKONSCode#parse1'),
+        ('f8e960c', 'DIVISOR-POSITIVE', 'C23', 'DIVISOR-POSITIVE/api/functions.divide#1')]:
     mutants.append({'id': 'revert-%s-whole-%s' % (commit, rule), 'rule': rule, 'property': prop, 'patch': 'mutants/patches/revert-%s.diff' % commit,
                     'expect_key': key, 'why': 'puts back the defect repaired by %s (%s)' % (commit, subjects.get(commit, '?'))})
 json.dump(mutants, open('/verif/mutants/REVERT.json', 'w'), indent=1)
